@@ -9,6 +9,9 @@ EXTENDS Integers, Sequences, TLC, Json, IOUtils
 
 Data == JsonDeserialize(IOEnv.TRACE_FILE)
 Tr == Data.traces
+(* Two levels (harness/parallel.py): the size / warning protocol k = min(m, kdim) and the routing of eigh_krylov / expm_krylov   *)
+(* through Lanczos / Arnoldi describe the code (Krylov.tla); C14 only asks for consistent, possibly shortened output.          *)
+Strict == IF "strict" \in DOMAIN Data THEN Data.strict ELSE TRUE
 VARIABLES tid, l
 tvars == <<tid, l>>
 Rec == Tr[tid][l]
@@ -18,19 +21,19 @@ MinI(a, b) == IF a < b THEN a ELSE b
 Exhausted == Rec.m >= Rec.kdim
 Kexp == MinI(Rec.m, Rec.kdim)                 \* Krylov!SizesOK
 
-ProtocolOK == /\ Rec.ambiguous \/ (Rec.k = Kexp /\ (Rec.warned <=> Rec.k < Rec.m))      \* Krylov!SizesOK, WarnOK
+ProtocolOK == /\ Strict => (Rec.ambiguous \/ (Rec.k = Kexp /\ (Rec.warned <=> Rec.k < Rec.m)))      \* Krylov!SizesOK, WarnOK
               /\ Rec.k >= 1 /\ Rec.k <= Rec.m
               /\ Rec.sizes_consistent                                                      \* |alpha| = k, |beta| = k-1, V is n x k (H is k x k)
 LanczosOK == /\ ProtocolOK
              /\ Rec.ortho_ok /\ Rec.proj_ok /\ Rec.alpha_real /\ Rec.beta_pos
 ArnoldiOK == /\ ProtocolOK
              /\ Rec.ortho_ok /\ Rec.proj_ok /\ Rec.hess_ok
-EighOK == /\ Rec.routed = "lanczos"                                                       \* Krylov!RoutingOK
+EighOK == /\ Strict => Rec.routed = "lanczos"                                                       \* Krylov!RoutingOK
           /\ Rec.ritz_ge_lmin /\ Rec.ritz_le_rayleigh                                      \* Required("ritz_bounds")
           /\ Exhausted => Rec.ritz_eq_reachable_min                                       \* Required("ritz_is_min_reachable")
           /\ (~Exhausted) => (Rec.ritz_orthonormal /\ Rec.ritz_rayleigh)                    \* Required("ritz_orthonormal")
           /\ Rec.shapes_ok
-ExpmOK == /\ Rec.routed = (IF Rec.hermitian THEN "lanczos" ELSE "arnoldi")               \* Krylov!RoutingOK
+ExpmOK == /\ Strict => Rec.routed = (IF Rec.hermitian THEN "lanczos" ELSE "arnoldi")               \* Krylov!RoutingOK
           /\ (Rec.hermitian /\ Rec.imag_time) => Rec.norm_ok                               \* Required("unitary")
           /\ Exhausted => Rec.exact_ok                                                     \* Required("exact_expm")
           /\ Rec.shapes_ok
@@ -44,19 +47,19 @@ Diagnose ==
     IF Rec.ev = "raise" THEN Rec.exc
     ELSE IF Rec.ev \in {"lanczos", "arnoldi"} THEN
         (IF ~Rec.sizes_consistent THEN "returned sizes are mutually inconsistent or entries are not finite"
-         ELSE IF ~(Rec.ambiguous \/ Rec.k = Kexp) THEN "number of returned Krylov vectors differs from min(m, kdim)"
-         ELSE IF ~(Rec.ambiguous \/ (Rec.warned <=> Rec.k < Rec.m)) THEN "warning / early termination mismatch"
+         ELSE IF ~(Rec.ambiguous \/ Rec.k = Kexp) THEN "spec: number of returned Krylov vectors differs from min(m, kdim)"
+         ELSE IF ~(Rec.ambiguous \/ (Rec.warned <=> Rec.k < Rec.m)) THEN "spec: warning / early termination mismatch"
          ELSE IF ~Rec.ortho_ok THEN "Krylov vectors not orthonormal"
          ELSE IF ~Rec.proj_ok THEN "projected map differs from the returned tridiagonal / Hessenberg matrix"
          ELSE "coefficient structure (real alpha, positive beta / Hessenberg form)")
     ELSE IF Rec.ev = "eigh" THEN
-        (IF Rec.routed # "lanczos" THEN "eigh_krylov did not go through Lanczos"
+        (IF Rec.routed # "lanczos" THEN "spec: eigh_krylov did not go through Lanczos"
          ELSE IF ~Rec.ritz_ge_lmin THEN "lowest Ritz value below the smallest eigenvalue"
          ELSE IF ~Rec.ritz_le_rayleigh THEN "lowest Ritz value above the Rayleigh quotient of the start vector"
          ELSE IF Exhausted /\ ~Rec.ritz_eq_reachable_min THEN "exhausted Krylov space: lowest Ritz value is not the smallest reachable eigenvalue"
          ELSE "Ritz vectors not orthonormal / Ritz values not their Rayleigh quotients / shapes")
     ELSE IF Rec.ev = "expm" THEN
-        (IF Rec.routed # (IF Rec.hermitian THEN "lanczos" ELSE "arnoldi") THEN "expm_krylov routed to the wrong iteration"
+        (IF Rec.routed # (IF Rec.hermitian THEN "lanczos" ELSE "arnoldi") THEN "spec: expm_krylov routed to the wrong iteration"
          ELSE IF Rec.hermitian /\ Rec.imag_time /\ ~Rec.norm_ok THEN "Hermitian exponential with imaginary time does not preserve the norm"
          ELSE IF Exhausted /\ ~Rec.exact_ok THEN "exhausted Krylov space: result differs from expm(dt A) v"
          ELSE "shape of the result")
